@@ -52,6 +52,16 @@ func (r *siReport) done(bound string) {
 	fmt.Printf("STANDIN-SUMMARY %s cases=%d distinct=%d fail=%d bound=%s\n", r.id, r.cases, len(r.distinct), len(r.fails), bound)
 }
 
+// siDeep: the thorough tier asks for the exhaustive ranges of the properties' quantifiers
+func siDeep() bool { return os.Getenv("GOVC_STANDIN_DEEP") != "" }
+
+func siScale(quick, deep int) int {
+	if siDeep() {
+		return deep
+	}
+	return quick
+}
+
 func siSeed() int64 {
 	if v, err := strconv.ParseInt(os.Getenv("GOVC_SEED"), 10, 64); err == nil {
 		return v
@@ -288,7 +298,15 @@ func siZoo(rng *rand.Rand, n int) map[string]interface{} {
 
 func siC01(r *siReport) {
 	rng := rand.New(rand.NewSource(siSeed()))
-	for _, n := range siLengths {
+	lengths := siLengths
+	if siDeep() {
+		lengths = nil
+		for n := 0; n <= 600; n++ {
+			lengths = append(lengths, n)
+		}
+		lengths = append(lengths, 1023, 1024, 1025, 2048, 2049, 5000)
+	}
+	for _, n := range lengths {
 		zoo := siZoo(rng, n)
 		var names []string
 		for k := range zoo {
@@ -334,6 +352,10 @@ func siC01(r *siReport) {
 			continue
 		}
 		r.ok(cn)
+	}
+	if siDeep() {
+		r.done("zoo of 9 shapes x every length 0..600 and 1023..5000 across the list growth steps x seeded contents; 14 top-level scalars")
+		return
 	}
 	r.done("zoo of 9 shapes x lengths {0..600 incl. every length form and the 8-bit wrap points, and 1023..5000 across the list growth steps} x seeded contents; 14 top-level scalars")
 }
@@ -387,6 +409,52 @@ func siC09(r *siReport) {
 				r.ok(cn)
 			}
 		}
+	}
+	if siDeep() {
+		// every length 0..3*chunk+40, an ASCII and a 4-byte code point at the last position and at the first chunk boundary
+		for n := 0; n <= 3*2048+40; n++ {
+			for wi, w := range []rune{'x', '😀'} {
+				for _, off := range []int{n - 1, 2047} {
+					if off < 0 || off >= n {
+						continue
+					}
+					rs := make([]rune, n)
+					for i := range rs {
+						rs[i] = 'y'
+					}
+					rs[off] = w
+					s := string(rs)
+					cn := fmt.Sprintf("deepstr/len=%d/wide=%d/off=%d", n, wi, off)
+					for _, v := range []interface{}{s, &ZInner{1, s}} {
+						out, err := siRoundTrip(v)
+						if err != nil {
+							r.fail(cn, err.Error())
+						} else if !siEqual(v, out) {
+							r.fail(cn, fmt.Sprintf("content differs at %T", v))
+						} else {
+							r.ok(cn)
+						}
+					}
+				}
+			}
+		}
+		for n := 1; n <= 3*4096+40; n++ {
+			b := make([]byte, n)
+			for i := range b {
+				b[i] = byte(i*7 + n)
+			}
+			cn := fmt.Sprintf("deepbin/len=%d", n)
+			out, err := siRoundTrip(b)
+			if err != nil {
+				r.fail(cn, err.Error())
+			} else if !siEqual(b, out) {
+				r.fail(cn, "content differs")
+			} else {
+				r.ok(cn)
+			}
+		}
+		r.done("string lengths around 32/1024/2048/4096/6144 x {1,2,3,4}-byte code point at 3 offsets x 4 positions; binary lengths around 16/4096/8192/12288 x 3 positions; every string length 0..6184 x {ASCII, 4-byte code point} x {last position, first chunk boundary} x {top level, struct field}; every binary length 1..12328")
+		return
 	}
 	r.done("string lengths around 32/1024/2048/4096/6144 x {1,2,3,4}-byte code point at 3 offsets x 4 positions; binary lengths around 16/4096/8192/12288 x 3 positions")
 }
@@ -702,7 +770,7 @@ func siC05(r *siReport) {
 	for pi, perm := range siPermutations(5) {
 		for _, variant := range []string{"all", "drop-last", "extra-first", "extra-middle"} {
 			for _, pos := range []int{0, 1, 2, 15, 16, 17, 40} {
-				if pos > 2 && pi%17 != 0 {
+				if pos > 2 && pi%17 != 0 && !siDeep() {
 					continue
 				}
 				fields := append([]int{}, perm...)
@@ -883,7 +951,7 @@ func siC06(r *siReport) {
 	rng := rand.New(rand.NewSource(siSeed()))
 	shared := &ZInner{9, "shared"}
 	lst := []interface{}{int32(1), "two"}
-	for round := 0; round < 60; round++ {
+	for round := 0; round < siScale(60, 1500); round++ {
 		n := 1 + rng.Intn(50)
 		vals := make([]interface{}, n)
 		for i := range vals {
@@ -975,7 +1043,7 @@ func siC06(r *siReport) {
 			r.ok(cn)
 		}
 	}
-	r.done("60 seeded sequences of 1..50 mixed values (ints, strings, structs, a shared pointer, a shared list, binaries up to 5000 octets, maps, doubles, typed lists) through one encoder / one decoder with a byte-counting reader without read-ahead")
+	r.done(fmt.Sprint(siScale(60, 1500))+" seeded sequences of 1..50 mixed values (ints, strings, structs, a shared pointer, a shared list, binaries up to 5000 octets, maps, doubles, typed lists) through one encoder / one decoder with a byte-counting reader without read-ahead")
 }
 
 // ---------------------------------------------------------------- C13 / C15: unsupported values and failing writers
@@ -1182,7 +1250,14 @@ func siC14(r *siReport) {
 			if len(bs) > 400 && i%5 != 0 {
 				continue
 			}
-			for _, b := range []byte{0x00, 0x4f, 0x51, 0x55, 0x57, 0x58, 0x60, 0x6f, 0x70, 0x7f, 0x8f, 0xbf, 0x43, 'M', 'H', 'Z', 'N', 0xff, 'I', 0x56} {
+			subst := []byte{0x00, 0x4f, 0x51, 0x55, 0x57, 0x58, 0x60, 0x6f, 0x70, 0x7f, 0x8f, 0xbf, 0x43, 'M', 'H', 'Z', 'N', 0xff, 'I', 0x56}
+			if siDeep() && len(bs) <= 120 {
+				subst = nil
+				for b := 0; b < 256; b++ {
+					subst = append(subst, byte(b))
+				}
+			}
+			for _, b := range subst {
 				if bs[i] == b {
 					continue
 				}
@@ -1216,7 +1291,7 @@ func siC14(r *siReport) {
 		}
 	}
 	rec(nil)
-	r.done(fmt.Sprintf("every prefix and 20 single-octet substitutions at every position of the valid messages of 10 zoo values (long messages subsampled), with and without type map; all 14424 strings of length <=3 over a 24-symbol tag alphabet; %d inputs ended in a recorded reflect-assignment panic (known finding)", siKnownPanics))
+	r.done(fmt.Sprintf("every prefix and 20 single-octet substitutions (thorough tier: all 256 for messages up to 120 octets) at every position of the valid messages of 10 zoo values (long messages subsampled), with and without type map; all 14424 strings of length <=3 over a 24-symbol tag alphabet; %d inputs ended in a recorded reflect-assignment panic (known finding)", siKnownPanics))
 }
 
 var siKnownPanics int
@@ -1226,7 +1301,7 @@ var siKnownPanics int
 func siC11(r *siReport) {
 	rng := rand.New(rand.NewSource(siSeed()))
 	probeVals := []interface{}{&ZInner{1, "x"}, []interface{}{int32(1), "a"}, int32(5), "s"}
-	for round := 0; round < 80; round++ {
+	for round := 0; round < siScale(80, 2000); round++ {
 		all := []interface{}{&ZInner{}, &ZG{}}
 		tm, nm := ExtractTypeNameMap(all)
 		s := NewSerializer(tm, nm)
@@ -1278,7 +1353,7 @@ func siC11(r *siReport) {
 			r.ok(cn)
 		}
 	}
-	r.done("80 seeded histories of length 0..29 over {encode ok, encode failing, decode ok, decode garbage, streaming write, cyclic encode} followed by 4 probe values compared with a fresh serializer")
+	r.done(fmt.Sprint(siScale(80, 2000))+" seeded histories of length 0..29 over {encode ok, encode failing, decode ok, decode garbage, streaming write, cyclic encode} followed by 4 probe values compared with a fresh serializer")
 }
 
 // ---------------------------------------------------------------- C16: extraction
